@@ -263,10 +263,38 @@ def loop_no_early_exit(ctx, body, inside_bb, allow_edges=()):
             if x in tries and lab == tries[x][1]:
                 continue
             z = es.get(x)
-            if z and z[3] == "std::option::Option" and z[4].get("None") == lab and strip(z[2])[0] == "call" and strip(z[2])[1].endswith("Iterator>::next"):
+            if z and z[3] == "std::option::Option" and z[4].get("None") == lab and strip(z[2])[0] == "call" and strip(z[2])[1].endswith(("Iterator>::next", "range::next")):
                 continue
             bad.append((x, lab, y))
     return bad
+
+
+def loops_complete(ck, ctx, rule, table):
+    """table: [(function, anchor callee inside the loop, what the loop covers)]: each such loop visits every element: it is left only when its
+    iterator is exhausted or by `?` (a `break`, or an early `return` that is not an error, would silently drop the remaining elements)"""
+    F = ctx.F
+    for fn, anchor, what in table:
+        b = F.body(fn)
+        if b is None:
+            ck.ob("anchor", "fn " + fn, False, "anchor-missing: %s" % fn, nontrivial=False)
+            continue
+        cfg = ctx.cfg(b)
+        sites = [bb for bb, t in b.calls() if callee_of(t) == anchor or callee_of(t).endswith(anchor)]
+        sites = [bb for bb in sites if cfg.enclosing_loop_header(bb) is not None]
+        if not sites:
+            ck.ob(rule, "%s|loop-complete|%s" % (fn, anchor.split("::")[-1]), False, "no loop around %s found in %s" % (anchor, fn), span=b.loc, fn=fn)
+            continue
+        seen_h = set()
+        for bb in sites:
+            h = cfg.enclosing_loop_header(bb)
+            if h in seen_h:
+                continue
+            seen_h.add(h)
+            bad = loop_no_early_exit(ctx, b, bb)
+            errs = {eb for eb, _ in err_return_blocks(ctx, b)}
+            bad = [e_ for e_ in (bad or []) if not (errs and all(r_ in errs for r_ in (set(cfg.returns()) & cfg.reach_avoid([e_[2]]))))]
+            ck.ob(rule, "%s|loop-complete|%s#%d" % (fn, anchor.split("::")[-1], len(seen_h) - 1), bad == [], "the loop over %s in %s ends only at exhaustion or with an error (other exits: %s)" % (what, fn.split("::")[-1], bad), span=b.blocks[bb]["term"]["loc"], fn=fn)
+        ck.functions.add(fn)
 
 
 def iter_source_calls(e):
